@@ -44,14 +44,14 @@ func _goml_inherent_Point_Point_to_string(self__0 Point) string {
     var mtmp0 Point = self__0
     var x1 int32 = mtmp0.x
     var x2 int32 = mtmp0.y
-    var y__2 int32 = x2
-    var x__1 int32 = x1
+    var __field1__2 int32 = x2
+    var __field0__1 int32 = x1
     var t14 string = "Point { " + "x: "
-    var t15 string = int32_to_string(x__1)
+    var t15 string = int32_to_string(__field0__1)
     var t13 string = t14 + t15
     var t12 string = t13 + ", "
     var t11 string = t12 + "y: "
-    var t16 string = int32_to_string(y__2)
+    var t16 string = int32_to_string(__field1__2)
     var t10 string = t11 + t16
     ret26 = t10 + " }"
     return ret26
